@@ -78,11 +78,17 @@ def render_cache(cache):
     return ";".join(sorted(items))
 
 
-def observe(f):
+def observe_nolog(f):
+    """like observe() but leaves the global call log alone (several evaluations interleave in C12)"""
+    return observe(f, clear=False)
+
+
+def observe(f, clear=True):
     """structured observation of one evaluation call f() -> State"""
     from pyparsing import ParseException
     from liquer.state import EvaluationException
-    vocab.CALLS.clear()
+    if clear:
+        vocab.CALLS.clear()
     o = dict(kind="state")
     try:
         st = f()
